@@ -176,29 +176,38 @@ private lemma tri_sf_aff (a w m z : ℝ) (hw : 0 < w) :
         field_simp
       · simp [not_le.mpr hz0, hzm, hz1]
 
-private lemma tri_pdf_aff (a w m z : ℝ) (hw : 0 < w) (hm0 : 0 ≤ m) (hm1 : m ≤ 1) :
+/-- Since the source fix (`if x == c { 2/(b−a) }` first, then `a ≤ x < c`, then `c < x ≤ b`) the
+    identity needs no hypothesis on the mode at all: the former `0/0` at `x = mode = min` is gone. -/
+private lemma tri_pdf_aff (a w m z : ℝ) (hw : 0 < w) :
     Triangular.pdf ⟨a, a + w, a + w * m⟩ (a + w * z) = Triangular.pdf ⟨0, 1, m⟩ z / w := by
   unfold Triangular.pdf
+  rfun_norm
   have h0 : (a ≤ a + w * z) ↔ (0 ≤ z) := by
     have := aff_le_aff a w 0 z hw; rw [mul_zero, add_zero] at this; exact this
   have h1 : (a + w * z ≤ a + w) ↔ (z ≤ 1) := by
     have := aff_le_aff a w z 1 hw; rw [mul_one] at this; exact this
-  simp only [h0, h1, aff_le_aff a w z m hw, aff_lt_aff a w m z hw]
   have hw' : w ≠ 0 := hw.ne'
-  by_cases hA : 0 ≤ z ∧ z ≤ m
-  · simp only [hA, and_self, if_true]
+  have he : (a + w * z = a + w * m) ↔ (z = m) := by
+    constructor
+    · intro h; exact mul_left_cancel₀ hw' (by linarith)
+    · intro h; rw [h]
+  simp only [h0, h1, he, aff_lt_aff a w z m hw, aff_lt_aff a w m z hw]
+  by_cases hE : z = m
+  · simp only [hE, if_true]
     norm_num
-    by_cases hm : m = 0
-    · have hz : z = 0 := le_antisymm (hm ▸ hA.2) hA.1
-      subst hm; subst hz; simp
-    · field_simp
-  · simp only [hA, if_false]
-    by_cases hB : m < z ∧ z ≤ 1
-    · simp only [hB, and_self, if_true]
-      have hm : 1 - m ≠ 0 := by intro h0; linarith [hB.1, hB.2]
+  · simp only [hE, if_false]
+    by_cases hA : 0 ≤ z ∧ z < m
+    · simp only [hA, and_self, if_true]
+      have hm : m ≠ 0 := by intro h0'; linarith [hA.1, hA.2]
       norm_num
       field_simp
-    · simp only [hB, if_false]; norm_num
+    · simp only [hA, if_false]
+      by_cases hB : m < z ∧ z ≤ 1
+      · simp only [hB, and_self, if_true]
+        have hm : 1 - m ≠ 0 := by intro h0'; linarith [hB.1, hB.2]
+        norm_num
+        field_simp
+      · simp only [hB, if_false]; norm_num
 
 private lemma sqrt_sq_mul (w t : ℝ) (hw : 0 < w) : Real.sqrt (w * w * t) = w * Real.sqrt t := by
   rw [Real.sqrt_mul (mul_self_nonneg w), Real.sqrt_mul_self hw.le]
@@ -279,11 +288,14 @@ theorem triangular_sf_loc_scale (z : ℝ) :
   rw [← tri_struct d h] at key
   exact key
 
+omit h1 h2 in
+/-- density: holds for every mode (in particular `mode = min` and `mode = max`, where the
+    pre-fix code evaluated `0/0` at `x = mode`); the constructor's `min ≤ mode ≤ max` is not
+    needed. -/
 theorem triangular_pdf_loc_scale (z : ℝ) :
     Triangular.pdf d (d.f_min + (d.f_max - d.f_min) * z)
       = Triangular.pdf ⟨0, 1, triStdMode d⟩ z / (d.f_max - d.f_min) := by
-  obtain ⟨hm0, hm1⟩ := triStdMode_mem d h h1 h2
-  have key := tri_pdf_aff d.f_min (d.f_max - d.f_min) (triStdMode d) z (by linarith) hm0 hm1
+  have key := tri_pdf_aff d.f_min (d.f_max - d.f_min) (triStdMode d) z (by linarith)
   rw [← tri_struct d h] at key
   exact key
 
